@@ -2,11 +2,12 @@
 # Evaluate seeded changes against the checks WITHOUT touching /repo: a scratch copy of /verif under /tmp/verif_eval
 # is pointed (VERIF_REPO + harness path dependency) at a scratch worktree /tmp/mut/eval of /repo, the patch is applied
 # there, and the quick checks are run.  Usage: tools/eval_seeded.sh <patch.diff> <label> [props...]
-# Result lines are appended to /tmp/mut/results2.tsv:  label <TAB> property <TAB> rc <TAB> last verdict line
+# Result lines are appended to $RESULTS:  label <TAB> property <TAB> rc <TAB> last verdict line
 set -u
 PATCH=$1; LABEL=$2; shift 2
 PROPS=${@:-"C01 C02 C03 C04 C05 C06 C07 C08 C09 C10 C11 C12 C13 C14 C15 C16 C17 C18 C19 C20"}
 EVAL=/tmp/mut/eval
+RESULTS=${SEED_RESULTS:-/tmp/mut/results3.tsv}
 COPY=/tmp/verif_eval
 if [ ! -d $EVAL ]; then git -C /repo worktree add --detach $EVAL HEAD -q; fi
 if [ ! -d $COPY ]; then
@@ -18,11 +19,18 @@ fi
 # keep the copy's machinery in sync with /verif (sources only)
 rsync -a --exclude .git --exclude .scratch --exclude replays --exclude evidence --exclude target --exclude .lake --exclude Cargo.toml /verif/ $COPY/
 git -C $EVAL checkout -q -- . && git -C $EVAL clean -fdq -e target
-git -C $EVAL checkout -q --detach ${SEED_BASE:-3ea956c}
-if ! git -C $EVAL apply "$PATCH"; then echo -e "$LABEL\t-\tAPPLY-FAILED\t-" >> /tmp/mut/results2.tsv; exit 1; fi
+# the patches were written against commit 3ea956c; later fix: commits are included when the patch still applies
+BASE=$(git -C /repo rev-parse HEAD)
+git -C $EVAL checkout -q --detach $BASE
+if ! git -C $EVAL apply "$PATCH" 2>/dev/null; then
+  BASE=${SEED_BASE:-3ea956c}
+  git -C $EVAL checkout -q --detach $BASE
+  if ! git -C $EVAL apply "$PATCH"; then echo -e "$LABEL\t-\tAPPLY-FAILED\t-" >> $RESULTS; exit 1; fi
+fi
+echo -e "$LABEL\tBASE\t0\t$BASE" >> $RESULTS
 for p in $PROPS; do
   out=$(cd $COPY && VERIF_REPO=$EVAL timeout 1800 ./check $p 2>&1 | tail -n 3 | tr '\n' ' ' | cut -c1-400)
   rc=$(echo "$out" | grep -c VIOLATION)
-  echo -e "$LABEL\t$p\t$rc\t$out" >> /tmp/mut/results2.tsv
+  echo -e "$LABEL\t$p\t$rc\t$out" >> $RESULTS
 done
 git -C $EVAL checkout -q -- .
